@@ -237,6 +237,9 @@ impl Nx {
 
     /// Opens the Nexus over a controllable store (gate off) for the STEP part.
     pub fn open_gated(content: &Content) -> (Nx, Arc<vcore::ctlstore::Ctl>) {
+        // logical millisecond clock for `anda_db::unix_ms` (flush bookkeeping),
+        // so the number of backend calls does not depend on wall-clock time
+        anda_db_utils::verif::set_clock(Some((1_750_000_000_000, 1)));
         let inner = ctlstore::restore(content);
         let (cs, ctl) = vcore::ctlstore::CtlStore::over(inner.clone());
         let nexus = block_on(connect(cs));
